@@ -345,7 +345,7 @@ theorem tieOk_bump {P idOf s s' b q m R pre} (hb : BumpS s s' b) (hI : Inv P idO
 theorem nodeOk_bump {P idOf s s' b q m} (hb : BumpS s s' b) (hI : Inv P idOf s) (hnb : ∀ c, ¬ Busy s c)
     (hm : s.memos q = some m) : NodeOk P idOf s' q m := by
   have ok := hI.node q m hm
-  refine ⟨obsOk_bump hb hI ok.obs, ok.origin, ?_, ok.rank, ?_, ?_, ok.hd, ?_, ok.hsrc, ok.outedge, ok.never, ?_⟩
+  refine ⟨obsOk_bump hb hI ok.obs, ok.origin, ?_, ok.rank, ?_, ?_, ok.hd, ?_, ok.hsrc, ok.outedge, ok.never, ?_, ok.shape⟩
   rotate_right
   · -- m4
     rcases ok.m4 with h | ⟨o, ho, hout, h⟩
